@@ -1007,6 +1007,9 @@ func c09FloatBits(r *Rng) float64 {
 // c09SpellFloat renders |x| in one of several source spellings; "" if the spelling does not apply.
 func c09SpellFloat(r *Rng, x float64) string {
 	x = math.Abs(x)
+	if math.IsNaN(x) || math.IsInf(x, 0) { // the generator's neighbours of 0 wrap around to NaN bit patterns: no source spelling
+		return ""
+	}
 	switch r.Intn(9) {
 	case 0:
 		return strconv.FormatFloat(x, 'g', -1, 64)
